@@ -105,6 +105,9 @@ func tcObs(text string) string {
 	env.LogLevels = []process.LogLevel{}
 	err = process.Typecheck(procs, assumed, env)
 	if err != nil {
+		if strings.HasPrefix(err.Error(), "internal typechecker error") {
+			return "REJECT-INTERNAL " + err.Error()
+		}
 		return "REJECT"
 	}
 	return "ACCEPT\t" + strings.Join(process.VerifDumpProgram(procs, assumed, env, true), " ;; ")
